@@ -1,5 +1,5 @@
 /*UNIT
-{"props": ["C18"], "kind": "K2", "tier": "thorough", "timeout": 1800, "mem_gb": 30, "cbmc": ["--unwind", "4"],
+{"props": ["C18"], "kind": "K2", "tier": "thorough", "timeout": 3600, "mem_gb": 30, "cbmc": ["--unwind", "4"],
  "extra_src": ["stubs/mem_sampled.c"],
  "replace_calls": {"ZDICT_analyzeEntropy": "stub_analyzeEntropy"},
  "functions": ["ZDICT_finalizeDictionary","ZDICT_getDictID","ZDICT_maxRep"],
